@@ -6,7 +6,7 @@
 
 package gzip
 
-//@ unit skip_compressed props=C18 filter=`SkipCompressedFilter\)\.ShouldCompress$`
+//@ unit skip_compressed frames=on props=C18 filter=`SkipCompressedFilter\)\.ShouldCompress$`
 //@ extern invoke:(net/http.ResponseWriter).Header
 //@   pure
 //@ extern (net/http.Header).Get
@@ -15,7 +15,7 @@ package gzip
 //@   ensures [already_encoded] (w.Header().Get("Content-Encoding") != "" && w.Header().Get("Content-Encoding") != "identity") ==> result == false
 //@   ensures [plain_is_compressed] w.Header().Get("Content-Encoding") == "" ==> result == true
 
-//@ unit gzip_response_writer props=C18 filter=`gzip\.gzipResponseWriter\)\.(WriteHeader|Write)$`
+//@ unit gzip_response_writer frames=on props=C18 filter=`gzip\.gzipResponseWriter\)\.(WriteHeader|Write)$`
 //@ // the compressing writer itself: committing its header always announces Content-Encoding: gzip first, and every body
 //@ // write goes through the gzip writer after the header has been committed exactly once (what the filter writer assumes)
 //@ ghost gzAnnounced int
@@ -53,7 +53,7 @@ package gzip
 //@   ensures [body_through_gzip] gzBody == old(gzBody) + 1 && w.statusCodeWritten
 //@   ensures [header_once] (old(w.statusCodeWritten) ==> (gzAnnounced == old(gzAnnounced) && committed == old(committed))) && (!old(w.statusCodeWritten) ==> (gzAnnounced == 1 && committed == old(committed) + 1))
 
-//@ unit response_filter_writer props=C18 filter=`gzip\.ResponseFilterWriter\)\.(Write|WriteHeader)$`
+//@ unit response_filter_writer frames=on props=C18 filter=`gzip\.ResponseFilterWriter\)\.(Write|WriteHeader)$`
 //@ ghost gzAnnounced int
 //@ ghost rawBody int
 //@ ghost gzBody int
